@@ -89,7 +89,7 @@ class Case:
 
     def __init__(self, cid, prog, args=None, interpret=True, debug_modes=(False, True), mut=None,
                  validate=True, tags=None, text=None, expect_reject=False, cross=None, note=None,
-                 wit_fixed=None, check_markers=False):
+                 wit_fixed=None, check_markers=False, expect_params=None, expect_instantiate_error=False):
         self.cid = cid
         self.prog = prog            # S.Program (specification side)
         self.args = args or {}      # name -> (ty, const expression AST)
@@ -105,6 +105,8 @@ class Case:
         self.raw_args = {}          # text-only cases: arguments as {"NAME": {"type":..., "value":...}}
         self.wit_fixed = wit_fixed or {}  # name -> (list type, length): list witness of a fixed length
         self.check_markers = check_markers  # C14: compare debug markers with the program's tracked calls
+        self.expect_params = expect_params  # C12: {name: type string} that parameters() must report exactly
+        self.expect_instantiate_error = expect_instantiate_error  # C12: instantiate must refuse these arguments
 
 
 def _arg_request(case):
@@ -213,6 +215,16 @@ def _check_case(case, res):
     machines = {}
     for dbg in case.debug_modes:
         d = _W["dump"].ask({"text": text, "debug": dbg, "args": areq})
+        if case.expect_params is not None and "params" in d:
+            got = {k: "".join(v.split()) for k, v in d["params"].items()}
+            want = {k: "".join(v.split()) for k, v in case.expect_params.items()}
+            if got != want:
+                return {"status": "violation", "kind": "parameters", "detail": "parameters() reports %s, the program text has %s" % (got, want)}
+        if case.expect_instantiate_error:
+            if not d.get("ok") and d.get("stage") == "instantiate":
+                return {"status": "rejected_as_expected", "detail": d.get("error", "")[:200]}
+            return {"status": "accepted_unexpectedly" if d.get("ok") else "rejected",
+                    "detail": "instantiate should have refused the arguments; got stage=%s %s" % (d.get("stage"), (d.get("error") or "")[:200])}
         if not d.get("ok"):
             if case.expect_reject and d.get("stage") in ("parse", "analyze"):
                 return {"status": "rejected_as_expected", "detail": d.get("error", "")[:300]}
